@@ -99,6 +99,22 @@ def _apply(B, op, model, X, Xn, S):
         raise ValueError(op)
 
 
+def h_frame2(B, struct="2d-p3", op1="transform", op2="rotator"):
+    """two operations after a fit (sequences of length 3)"""
+    X, dim, fd = _mk(B, struct, "x")
+    Xn = _new_like(B, X, "xn")
+    S = xr.DataArray(B.array((2, 2), "S"), dims=("time", "mode"), coords={"time": [100, 101], "mode": [1, 2]})
+    model = M.single("EOF", n_modes=2, solver="full").fit(X, dim)
+    before = _answers(model, Xn, S)
+    meta0 = _meta(model)
+    _apply(B, op1, model, X, Xn, S)
+    _apply(B, op2, model, X, Xn, S)
+    after = _answers(model, Xn, S)
+    for k in before:
+        B.eq(f"after {op1};{op2}: {k} unchanged", after[k], before[k])
+    B.check(f"after {op1};{op2}: names/dims/attrs unchanged", _meta(model) == meta0, "changed")
+
+
 def h_frame(B, struct="2d", op="transform", flags=None):
     flags = dict(flags or {})
     X, dim, fd = _mk(B, struct, "x")
@@ -208,6 +224,11 @@ def configs(tier):
         add("h_refit", f"refit|2d->2d-p3|{op}", s1="2d", s2="2d-p3", op=op)
     add("h_refit", "refit|multiindex->multiindex|transform", s1="multiindex", s2="multiindex", op="transform")
     add("h_refit", "refit|2d->2d|standardize", s1="2d", s2="2d", op="none", flags={"standardize": True})
+    if tier == "thorough":
+        for o1 in OPS:
+            for o2 in OPS:
+                if o1 != o2:
+                    add("h_frame2", f"frame2|{o1};{o2}", op1=o1, op2=o2)
     add("h_cross_frame", "cross|frame|rotator", op="rotator")
     add("h_cross_frame", "cross|frame|transform", op="transform", alpha=0.5)
     add("h_cross_refit", "cross|refit", alpha=0.5)
